@@ -93,7 +93,13 @@ def _entries(conv, task, fam, merge, s, acc):
             out[k] = "EXC:" + type(ex).__name__
 
     run("convert_label", lambda: conv.convert_label(s).label)
-    run("convert_label+attrs", lambda: conv.convert_label(s, ["a.b"]).label)
+
+    def with_attrs():
+        lab = conv.convert_label(s, ["a.b", "c"])
+        if list(lab.attributes) != ["a.b", "c"] or lab.name != s:
+            raise AssertionError("attributes/name not carried: %r %r" % (lab.attributes, lab.name))
+        return lab.label
+    run("convert_label+attrs", with_attrs)
     run("convert_name", lambda: conv.convert_name(s))
     run("set_target_lists", lambda: set_target_lists(["car" if fam == "autoware" else "unknown", s], conv)[1])
     if task in CONFIG_TASKS:
@@ -111,7 +117,12 @@ def _entries(conv, task, fam, merge, s, acc):
 def check_case(case, acc):
     acc.case()
     fam, task, merge = case["family"], case["task"], case["merge"]
+    if fam == "autoware":
+        # converters of the other merge setting created before and after must not influence this one
+        LabelConverter(task, not merge, fam)
     conv = LabelConverter(task, merge, fam)
+    if fam == "autoware":
+        LabelConverter(task, not merge, fam)
     L = FAMILIES[fam]
     gold = ref.golden(fam, task, merge)
     tbl = "cls" if (fam == "traffic_light" and task == "classification2d") else ("other" if fam == "traffic_light" else "aw")
